@@ -230,7 +230,9 @@ func TestC12(t *testing.T) {
 	}
 	rapidCheck(t, "C12/order", tier(8000, 800000), func(rt *rapid.T) {
 		maxT := rapid.SampledFrom([]int64{5 * nsMs, 100 * nsMs, 3600 * 1000 * nsMs}).Draw(rt, "range")
-		c := c12Case{A: genCues(rt, 0, 10, maxT, opTexts), OrderOnly: true, AStyles: genIDs(rt, "as")}
+		// sort.Slice is only unstable above 12 elements: lists of up to 40 cues with many equal starts
+		maxN := rapid.SampledFrom([]int{10, 10, 40}).Draw(rt, "maxn")
+		c := c12Case{A: genCues(rt, 0, maxN, maxT, opTexts), OrderOnly: true, AStyles: genIDs(rt, "as")}
 		ties, unordered := false, false
 		seen := map[int64]bool{}
 		for i, cu := range c.A {
@@ -258,8 +260,8 @@ func TestC12(t *testing.T) {
 	rapidCheck(t, "C12/merge", tier(12000, 1200000), func(rt *rapid.T) {
 		maxT := rapid.SampledFrom([]int64{5 * nsMs, 100 * nsMs, 3600 * 1000 * nsMs}).Draw(rt, "range")
 		c := c12Case{
-			A:            genCues(rt, 0, 6, maxT, opTexts),
-			B:            genCues(rt, 0, 6, maxT, opTexts),
+			A:            genCues(rt, 0, rapid.SampledFrom([]int{6, 6, 20}).Draw(rt, "maxa"), maxT, opTexts),
+			B:            genCues(rt, 0, rapid.SampledFrom([]int{6, 6, 20}).Draw(rt, "maxb"), maxT, opTexts),
 			AStyles:      genIDs(rt, "as"),
 			BStyles:      genIDs(rt, "bs"),
 			ARegions:     genIDs(rt, "ar"),
